@@ -1,6 +1,7 @@
 package harness
 
 import (
+	"bufio"
 	"fmt"
 	"sort"
 	"net"
@@ -29,6 +30,7 @@ type c20Plan struct {
 	Hops    []c20Hop `json:"hops"`
 	KeepAlive bool   `json:"keepalive"`
 	Body      string `json:"body_built_with,omitempty"` // string | postargs | stream
+	Parsed    bool   `json:"request_header_parsed_from_wire,omitempty"` // a forwarding caller: the header was read from bytes, not built with setters
 }
 
 func init() { scenarios["C20"] = scenC20 }
@@ -46,13 +48,16 @@ var c20Hosts = map[string]string{
 	// a dotted prefix in front of a look-alike: not a subdomain of example.com
 	"login.evilexample.com": "10.20.0.9",
 	"a.b.xexample.com":      "10.20.0.10",
+	// a proper prefix of the subdomain's name: the anchor must be the initial host, not a buffer that later hops overwrite
+	"sub.example": "10.20.0.11",
 }
 
-var c20Names = []string{"example.com", "sub.example.com", "evilexample.com", "example.com.evil.net", "10.20.0.5", "other.org", "deep.sub.example.com", "xexample.com", "login.evilexample.com", "a.b.xexample.com"}
+var c20Names = []string{"example.com", "sub.example.com", "evilexample.com", "example.com.evil.net", "10.20.0.5", "other.org", "deep.sub.example.com", "xexample.com", "login.evilexample.com", "a.b.xexample.com", "sub.example"}
 
 func scenC20(e *Env) func() {
 	p := &c20Plan{Initial: Pick(e, "example.com", "example.com", "sub.example.com", "10.20.0.5"), Method: Pick(e, "GET", "POST", "POST", "PUT", "HEAD"), Max: Pick(e, 1, 2, 3, 5, 8), API: Pick(e, "doredirects", "doredirects", "doredirects", "get", "post"), KeepAlive: e.Bool()}
 	p.Body = Pick(e, "string", "string", "postargs", "stream")
+	p.Parsed = e.Chance(25)
 	n := e.Range(1, 6)
 	for i := 0; i < n; i++ {
 		p.Hops = append(p.Hops, c20Hop{Status: Pick(e, 301, 302, 303, 307, 308), Host: c20Names[e.Int(len(c20Names))], Form: Pick(e, "absolute", "absolute", "scheme-relative", "host-relative", "relative", "userinfo", "upper", "port"), EOF1: e.Chance(10)})
@@ -155,10 +160,23 @@ func c20Run(e *Env, p *c20Plan) {
 		sensNames = append(sensNames, k)
 	}
 	sort.Strings(sensNames)
-	for _, k := range sensNames {
-		req.Header.Set(k, sensitive[k])
+	if p.Parsed {
+		var raw strings.Builder
+		fmt.Fprintf(&raw, "%s /d/hop-0 HTTP/1.1\r\nHost: %s\r\n", p.Method, p.Initial)
+		for _, k := range sensNames {
+			fmt.Fprintf(&raw, "%s: %s\r\n", k, sensitive[k])
+		}
+		raw.WriteString("X-Plain: not-secret\r\n\r\n")
+		if err := req.Header.Read(bufio.NewReader(strings.NewReader(raw.String()))); err != nil {
+			panic(err)
+		}
+		req.SetRequestURI(url)
+	} else {
+		for _, k := range sensNames {
+			req.Header.Set(k, sensitive[k])
+		}
+		req.Header.Set("X-Plain", "not-secret")
 	}
-	req.Header.Set("X-Plain", "not-secret")
 	if p.Method == "POST" || p.Method == "PUT" {
 		switch p.Body {
 		case "postargs":
